@@ -2,7 +2,7 @@ From Clip Require Import base.Geom base.Winding base.Region base.Dist base.GenPo
 From Coq Require Import QArith.
 Require Import ExtrOcamlBasic.
 Extraction Language OCaml.
-Extraction "m.ml" open_spec spec_consistent spec_runs check_open general_position_open general_position_C05 open_general gp_joint gp_open open_self_clear tol_C05 general_position
+Extraction "m.ml" open_spec spec_consistent spec_runs check_open general_position_open general_position_C05 judged_broad open_samples check_open_robust robust_at open_general gp_joint gp_open open_self_clear tol_C05 general_position
   wn_diff wn_paths far_from edges_closed edges_open ct_of_Z fr_of_Z open_in_result
   crossings cross_par proper_cross lerp wn_paths_at runs_of seg_verdict run_covered footprint foot_par
   sol_len kept_len total_cuts length_ok Qnum Qden.
